@@ -36,7 +36,7 @@ CLAIMED = {
          "state-machine theorems for the ignoreDecompileErrors fallback (undecodable tables re-saved byte for byte) and for save (any failing "
          "compile leaves the file system unchanged). Tied to the code by outcome/directory correspondence on truncated, corrupted and synthetic "
          "headers; WOFF/WOFF2 containers, payload corruption, forced compile failures and code-execution canaries (safeEval, TTX attributes, "
-         "output naming) are implementation-side sweeps (testing). Known finding F6 (WOFF/WOFF2 leak zlib/brotli/assert errors) is listed; "
+         "output naming, varLib.main writing only inside --output-dir for hostile variable-font filenames) are implementation-side sweeps (testing). Known finding F6 (WOFF/WOFF2 leak zlib/brotli/assert errors) is listed; "
          "F5 (TTC header) was repaired by a fix: commit.",
          "Rocq proof of reader totality/outcome classes over a hand-written model + correspondence + fault-injection sweeps"),
  "C19": ("Theorems over the Gallina transcription of userNameToFileName/handleClash1 (both copies; their illegal/reserved tables are "
@@ -123,7 +123,7 @@ CLAIMED = {
          "pipelines are re-run in subprocesses under three PYTHONHASHSEED values; saves are checked not to disturb flags, dumps or later saves "
          "(testing). ttFont.sortedTagList (the order keys()/save()/reorderTables use; recommended orders regenerated from the source) is proved "
          "to depend on the SET of tables only, to list each table once, to equal 'recommended tags present, then the rest sorted', and to end "
-         "with DSIG; tied by correspondence on shuffled tag sets. F12 (hash-seed-dependent bsln/prop subsetting) repaired by a fix: commit.",
+         "with DSIG; tied by correspondence on shuffled tag sets. F12 (hash-seed-dependent bsln/prop subsetting) repaired by a fix: commit; subsets with ties are re-run under six hash seeds and saves under SOURCE_DATE_EPOCH (0 included) at two clock times.",
          "Rocq proof of set-invariance, table-order and save idempotence/refutation + instrumented save correspondence + hash-seed subprocess sweeps"),
  "C01": ("Theorems over the save state machine (shared with C16), parametric in every table's codec: a table that was not loaded and "
          "that no compile side-effect-loads is written byte for byte from the reader whatever else is loaded or compiled "
@@ -177,7 +177,7 @@ CLAIMED = {
          "iup_segment/iup_contour/iup_delta are modelled and tied to the code by exact correspondence on rational inputs with every "
          "explicit/inferred pattern. The rest of the pipeline (outline decoding, components, gvar application order, phantom-point advances, "
          "HVAR, avar, clamping, CFF/CFF2 charstrings incl. flex ties) is compared glyph by glyph with HarfBuzz on corpus and generated fonts at "
-         "default, extreme, random and out-of-range locations (testing).",
+         "default, extreme, random and out-of-range locations, incl. CFF2 fonts whose PrivateDict selects the variation data and CFF fonts with subroutine counts in different bias bands (testing). F25 (CFF2 blender ignoring the PrivateDict vsindex) repaired by a fix: commit.",
          "Rocq proof that inferred deltas meet the specification and that advance index maps round-trip + exact correspondence + HarfBuzz glyph sweeps"),
  "C06": ("The pure-Python packer (OTTableWriter: hash-consing with structural keys and Extension scoping, gathering order with "
          "sortCoverageLast and the extension area, positions, offset emission) is transcribed into Gallina and reproduces the real packer's "
@@ -187,7 +187,7 @@ CLAIMED = {
          "repair overflows (splitPairPos formats 1 and 2, splitSinglePos) are modelled: for every first glyph the two halves, tried in order, "
          "give the record the whole subtable gave (class 0 and the renumbering included); correspondence on the real otTables objects. The other "
          "overflow repairs (Extension promotion), the HarfBuzz repacker and GPOS compaction 0..9 are checked on the implementation pair by pair / "
-         "sequence by sequence against the rule text through HarfBuzz on tables that overflow 16-bit offsets (testing). Known finding F3.",
+         "sequence by sequence against the rule text through HarfBuzz on tables that overflow 16-bit offsets, and every splitTable entry is also forced through fixSubTableOverFlows on small fonts (odd/even class counts, subtables followed by others) and shaped before/after (testing). Known finding F3.",
          "Rocq proof of offset exactness and placement over a byte-exact packer model + overflow/compaction shaping sweeps"),
  "C07": ("Gallina models of substitution-lookup subsetting, of the WHOLE GSUB glyph closure (single/multiple/alternate/ligature subtables, "
          "contextual and chaining lookups of formats 1-3 with nested lookup calls, iterated to a fixpoint), of ClassDef.subset with class "
@@ -233,7 +233,7 @@ CLAIMED = {
          "exactly the positions where the rule as written matches, for glyph, class and coverage elements; the ligature subtable built from a set of rules applies at every position a longest matching rule, whatever the order of the rules (reading of the subtable tied to HarfBuzz). The rest of the language is "
          "checked on the implementation: every corpus .fea and generated programs printed, re-parsed, re-printed and compiled both ways, and "
          "generated GSUB/GPOS programs (two families: nested contextual calls and positioning; GDEF marks with lookup flags, inline rules and "
-         "reverse chaining) shaped by HarfBuzz against reference interpreters of the rule text (testing).",
+         "reverse chaining; rules of different kinds written inline in one feature, incl. deletions; glyph-class syntax) shaped by HarfBuzz against reference interpreters of the rule text (testing). F24 (ligatures mixed with deletions) repaired by a fix: commit.",
          "Rocq proof of value-record round trip, chaining-rule and ligature-rule compilation over a model tied by differential correspondence + asFea/HarfBuzz sweeps"),
 }
 
